@@ -46,7 +46,7 @@ COQ_DEPS = ["Corr/ImagerCorr.vo"]
 
 
 def extra_obligations(tier):
-    """Second tie (DESIGN 12.8): the geometry code of PersistenceImager is re-translated from the current
+    """Second tie (DESIGN 12.7): the geometry code of PersistenceImager is re-translated from the current
     source into Gallina over the abstract numeric record and must be convertible with Model/ImagerM.v
     (8 regenerated obligations, each `forall N state args, src_f = model_f` by reflexivity)."""
     from .. import src2coq
